@@ -2026,6 +2026,36 @@ void v_match_apply()
             judge(cx, fl1<R>(), enc(r), want, true);
           });
       });
+    // continuations with a REFERENCE result type (match and apply are declared decltype(auto)): the caller gets the very
+    // object the continuation returned - here the held alternative itself - not a copy of it
+    row(entry, 100000, [&] {
+      for (int v = 0; v < 9; ++v)
+      {
+        set_ops(v, 2);
+        V s = dec<V>(v);
+        begin_eval();
+        // one result type for every alternative: a reference to one of three anchor objects
+        static int anchor_storage[3] = {0, 0, 0};
+        auto const pick = [&](int k) -> int & { return anchor_storage[k]; };
+        decltype(auto) got = fcppt::variant::match(
+            s, [&](A &) -> int & { return pick(0); }, [&](B &) -> int & { return pick(1); }, [&](C &) -> int & { return pick(2); });
+        // (decltype(auto), not int&: on a tree that returns a copy this must still build and then be reported)
+        if (!std::is_lvalue_reference_v<decltype(got)> || &got != &anchor_storage[vidx(v)])
+          vf::violation(cx.fn + "/reference-result/not-the-returned-object", "mismatch",
+                        "match with continuations returning int& did not return the object the continuation of the held alternative returned" + ops_text());
+        decltype(auto) got2 = fcppt::variant::apply([&](auto &x) -> int & { return pick(std::is_same_v<std::remove_cvref_t<decltype(x)>, A> ? 0 : std::is_same_v<std::remove_cvref_t<decltype(x)>, B> ? 1 : 2); }, s);
+        if (!std::is_lvalue_reference_v<decltype(got2)> || &got2 != &anchor_storage[vidx(v)])
+          vf::violation("variant::apply/1/reference-result/not-the-returned-object", "mismatch",
+                        "apply with a function returning int& did not return the object the function returned" + ops_text());
+        decltype(auto) got3 = fcppt::variant::match(
+            std::as_const(s), [&](A const &) -> int const & { return pick(0); }, [&](B const &) -> int const & { return pick(1); },
+            [&](C const &) -> int const & { return pick(2); });
+        if (!std::is_lvalue_reference_v<decltype(got3)> || &got3 != &anchor_storage[vidx(v)])
+          vf::violation(cx.fn + "/const-reference-result/not-the-returned-object", "mismatch", "match with continuations returning int const&" + ops_text());
+        VF_COUNT("variant::match/reference-returning-continuations");
+        ++g_row_evals;
+      }
+    });
     // "absent" for a variant = the alternatives that are not held; their continuations must stay silent,
     // which the call-log comparison above checks on every evaluation
     cx.absent += cx.present * 2;
